@@ -51,7 +51,7 @@ def run(ctx):
     rows = [Q.random_row(rng) for _ in range(ctx.scale(10, 24))]
     rows.append({'a': 0, 'c': 0, 'n': None, 'm': None, 'b': True, 'nb': None, 's': 'a', 't': '', 'ns': None})
     rows.append({'a': 1, 'c': -1, 'n': 0, 'm': 0, 'b': False, 'nb': False, 's': 'ab', 't': 'a', 'ns': ''})
-    tr_reqs, tr_meta, rd_reqs, rd_meta, ev_reqs, ev_meta = [], [], [], [], [], []
+    tr_reqs, tr_meta, rd_reqs, rd_meta, ev_reqs, ev_meta, ck_reqs, ck_meta = [], [], [], [], [], [], [], []
     for idx, (mode, e) in enumerate(exprs):
         params = Q.random_params(rng)
         s = Q.src(e)
@@ -72,6 +72,8 @@ def run(ctx):
                 ctx.count('%s:raises:%s' % (prov, real['error']))
             if md is not None:
                 tr_reqs.append({'op': 'translate', 'dialect': md, 'schema': sch, 'expr': Q.to_json(e)}); tr_meta.append((s, prov, real, mode))
+                if 'ok' in real:
+                    ck_reqs.append({'op': 'check', 'dialect': md, 'schema': sch, 'expr': Q.to_json(e), 'sql': real['ok']}); ck_meta.append((s, prov, mode))
             if conds is None: continue
             asts[prov] = real['ok']
             p = db.provider
@@ -96,6 +98,12 @@ def run(ctx):
                 ctx.divergence('model conditions differ from the real %s translator' % prov, {'expr': s}, model=mc, impl=real)
         elif mc.get('error') != real['error']:
             ctx.divergence('model and real %s translator disagree on the error' % prov, {'expr': s}, model=mc, impl=real)
+    # the verified checker per dialect (C02_checker_sound: accepted on two dialects => the two statements select the same rows of every database)
+    for (s, prov, mode), out in zip(ck_meta, ctx.driver('C02', ck_reqs)):
+        if out.get('accepted'): ctx.count('checker-accepted:' + prov)
+        elif out.get('frag'):
+            ctx.divergence('the verified checker rejects the conditions the real %s translator emitted for an expression of the fragment' % prov, {'expr': s}, model=out, impl=None)
+        else: ctx.count('checker-not-applicable(outside fragment):' + prov)
     # (2) builder text
     for (s, prov, texts), out in zip(rd_meta, ctx.driver('C02', rd_reqs)):
         for t, o in zip(texts, out['ok']):
